@@ -119,7 +119,7 @@ PROPS = {
         ],
     },
     "C09": {
-        "units": ["cli"], "kani_complete": [], "kani_bounded_quick": [], "kani_bounded_thorough": [],
+        "units": ["cer", "cli"], "kani_complete": [], "kani_bounded_quick": [], "kani_bounded_thorough": [],
         "design_ref": "DESIGN.md section 5 / C09",
         "not_covered": [
             "make_salt (iterator chain): the salt prefix \"WebAuthn PRF\" || 0x00 is an ASSUMED contract, a wrong prefix is not detected",
